@@ -94,6 +94,15 @@ where
     }
 }
 
+/// Drops the trailing empty bump placeholder that `#[derive(GetSeeds)]` appends. An empty seed does not
+/// contribute to the derived address, but it counts towards the runtime's limit on the number of seeds.
+pub(crate) fn without_bump_placeholder(mut seeds: Vec<&[u8]>) -> Vec<&[u8]> {
+    if seeds.last().is_some_and(|last| last.is_empty()) {
+        seeds.pop();
+    }
+    seeds
+}
+
 /// Wrapper type for seed validation arguments.
 #[derive(Debug, Clone, Copy, PartialEq, Eq, Default, Hash, PartialOrd, Ord)]
 #[repr(transparent)]
@@ -243,7 +252,8 @@ where
             return Ok(());
         }
         let seeds = seeds.clone().0;
-        let (address, bump) = Pubkey::find_program_address(&seeds.seeds(), &P::id(ctx)?);
+        let (address, bump) =
+            Pubkey::find_program_address(&without_bump_placeholder(seeds.seeds()), &P::id(ctx)?);
         let expected = self.account.account_info().pubkey();
         ensure!(
             address.fast_eq(expected),
